@@ -6,4 +6,5 @@ export CARGO_NET_OFFLINE=true
 cargo +nightly miri setup >/dev/null 2>&1 || true
 MIRIFLAGS="-Zmiri-seed=0" cargo +nightly miri run --offline -q -- 1 0 0 >/dev/null
 RUSTFLAGS="-Zsanitizer=address" cargo +nightly build --offline -q --features ffi --target x86_64-unknown-linux-gnu
+RUSTFLAGS="-Zsanitizer=address" cargo +nightly build --release --offline -q --features ffi --target x86_64-unknown-linux-gnu
 echo "memsim setup done"
